@@ -3,3 +3,5 @@ import Foundation.Basic.Search
 import Foundation.Model.Cache
 import Foundation.Lemmas.Cache
 import Foundation.Proofs.C12
+import Foundation.Gen.Facts
+import Foundation.Proofs.C02
